@@ -257,12 +257,13 @@ def case_from_dict(c):
     return g, recs
 
 
-def fixed_graph():
+def fixed_graph(rename=None):
     """a hand-built two-chromosome tagged graph (no randomness): chr1 with a bubble (alt allele b1,b2 off the reference), an inversion link
     and an untagged node; chr2 a plain chain with a deletion link.  Used for the exhaustive sections."""
     S = []
 
     def seg(i, seq, sn, so, sr, bo, no):
+        sn = (rename or {}).get(sn, sn)  # e.g. a contig name that contains ':' (a valid Z value)
         s = Seg(i, seq, sn, so, sr, extra=("BO:i:%d" % bo, "NO:i:%d" % no))
         s.bo, s.no = bo, no
         S.append(s)
